@@ -177,3 +177,171 @@ func reconfigScenarios(r *vkit.R) {
 		}
 	})
 }
+
+// Directed single-field reconfigurations (fixed list, both tiers, 1 and 4 callers each): only the burst, only the qps, or
+// both change. After the Sync that delivered the change returned,
+//
+//	lowered: every admission whose call started after that return obeys burst' + qps'*T (the old, larger burst / rate must
+//	         not survive); the callers keep attempting for >= 10 ms so that a surviving old RATE shows as well;
+//	raised : the old bucket is first drained to an observed refusal; after an idle period t (from the later of Sync's
+//	         return / last attempt's return to the earliest call of the burst) at least min(attempts, burst', floor(qps'*t))
+//	         immediate attempts are admitted - the values are chosen so that this exceeds what the OLD configuration could
+//	         hand out (old burst + old qps * duration of the burst).
+func singleFieldScenarios(r *vkit.R) {
+	type sc struct {
+		kind           string
+		q0, b0, q1, b1 int32
+		raise          bool
+		idle           time.Duration
+		callers        int
+	}
+	base := []sc{
+		{kind: "burst-down", q0: 10, b0: 50, q1: 10, b1: 5},
+		{kind: "burst-down", q0: 1000, b0: 400, q1: 1000, b1: 20},
+		{kind: "qps-down", q0: 2000, b0: 100, q1: 20, b1: 100},
+		{kind: "both-down", q0: 1000, b0: 1000, q1: 10, b1: 5},
+		{kind: "burst-up", q0: 1000, b0: 20, q1: 1000, b1: 400, raise: true, idle: 50 * time.Millisecond},
+		{kind: "burst-up", q0: 2000, b0: 10, q1: 2000, b1: 1000, raise: true, idle: 30 * time.Millisecond},
+		{kind: "qps-up", q0: 20, b0: 100, q1: 2000, b1: 100, raise: true, idle: 30 * time.Millisecond},
+		{kind: "both-up", q0: 10, b0: 5, q1: 1000, b1: 1000, raise: true, idle: 30 * time.Millisecond},
+	}
+	var list []sc
+	for _, s := range base {
+		for _, c := range []int{1, 4} {
+			s.callers = c
+			list = append(list, s)
+		}
+	}
+	r.Parallel(len(list), 8, func(i int, _ *vkit.Rand) {
+		s := list[i]
+		ctx, cancel := context.WithCancel(context.Background())
+		lim := flowcontrols.NewUpstreamLimiter(ctx, fmt.Sprintf("c06-single-%d", i), "", nil)
+		defer func() {
+			lim.Sync(proxyv1alpha1.FlowControl{})
+			cancel()
+		}()
+		var mu sync.Mutex
+		var evs []ev
+		attempt := func(caller int) bool {
+			tc := bed.Now()
+			fc := lim.GetOrDefault(tbName)
+			ok := fc.TryAcquire()
+			tr := bed.Now()
+			if ok {
+				fc.Release()
+			}
+			mu.Lock()
+			evs = append(evs, ev{tc: tc, tr: tr, ok: ok, caller: caller})
+			mu.Unlock()
+			return ok
+		}
+		var trace []string
+		lim.Sync(tbSpec(s.q0, s.b0, "", 1))
+		trace = append(trace, fmt.Sprintf("sync qps=%d burst=%d", s.q0, s.b0))
+		w := func(extra map[string]interface{}) map[string]interface{} {
+			m := map[string]interface{}{"change": s.kind, "old": []int32{s.q0, s.b0}, "new": []int32{s.q1, s.b1}, "callers": s.callers, "trace": trace}
+			for k, v := range extra {
+				m[k] = v
+			}
+			return m
+		}
+		r.Eval(1)
+		r.Count("single_field_scenarios", 1)
+		r.Count("single_field_scenarios_"+s.kind, 1)
+		r.Distinct(vkit.Hash64("single", fmt.Sprintf("%+v", s)))
+
+		if !s.raise {
+			attempt(0)
+			attempt(0)
+			lim.Sync(tbSpec(s.q1, s.b1, "", 1))
+			syncDone := bed.Now()
+			trace = append(trace, fmt.Sprintf("2 attempts, then sync qps=%d burst=%d", s.q1, s.b1))
+			per := (int(s.b0)+50)/s.callers + 150
+			var wg sync.WaitGroup
+			for c := 0; c < s.callers; c++ {
+				wg.Add(1)
+				go func(c int) {
+					defer wg.Done()
+					for k := 0; k < per; k++ {
+						if !attempt(c) {
+							time.Sleep(50 * time.Microsecond)
+						}
+					}
+				}(c)
+			}
+			wg.Wait()
+			var adm []ev
+			for _, e := range evs {
+				if e.ok && e.tc >= syncDone {
+					adm = append(adm, e)
+				}
+			}
+			sort.Slice(adm, func(a, b int) bool { return adm[a].tc < adm[b].tc })
+			if excess, i0, j0, R := upperBound(adm, s.q1, s.b1); excess > slack {
+				T := float64(R-adm[i0].tc) / 1e9
+				r.Violation("C06/limiter/over-admission/after-single-field-change="+s.kind,
+					fmt.Sprintf("token bucket reconfigured qps=%d burst=%d -> qps=%d burst=%d (%s); after that Sync returned %d requests were admitted within %.6fs, bound burst+qps*T = %.3f (%d callers)",
+						s.q0, s.b0, s.q1, s.b1, s.kind, j0-i0+1, T, float64(s.b1)+float64(s.q1)*T, s.callers),
+					w(map[string]interface{}{"admitted_in_window": j0 - i0 + 1, "window_s": T}))
+			}
+			return
+		}
+		// raised
+		refused := false
+		for k := 0; k < int(s.b0)+50; k++ {
+			if !attempt(0) {
+				refused = true
+				break
+			}
+		}
+		if !refused {
+			r.Count("single_field_moot(no_refusal_before)", 1)
+			return
+		}
+		lastReturn := evs[len(evs)-1].tr
+		lim.Sync(tbSpec(s.q1, s.b1, "", 1))
+		idleFrom := bed.Now()
+		if lastReturn > idleFrom {
+			idleFrom = lastReturn
+		}
+		trace = append(trace, fmt.Sprintf("old bucket drained to a refusal, then sync qps=%d burst=%d", s.q1, s.b1))
+		time.Sleep(s.idle)
+		nominal := int(float64(s.q1) * s.idle.Seconds())
+		per := (2*nominal+8)/s.callers + 1
+		from := len(evs)
+		var wg sync.WaitGroup
+		for c := 0; c < s.callers; c++ {
+			wg.Add(1)
+			go func(c int) {
+				defer wg.Done()
+				for k := 0; k < per; k++ {
+					attempt(c)
+				}
+			}(c)
+		}
+		wg.Wait()
+		burst := evs[from:]
+		first := int64(math.MaxInt64)
+		got := 0
+		for _, e := range burst {
+			if e.tc < first {
+				first = e.tc
+			}
+			if e.ok {
+				got++
+			}
+		}
+		t := float64(first-idleFrom) / 1e9
+		want := math.Min(math.Floor(float64(s.q1)*t-slack), math.Min(float64(s.b1), float64(len(burst))))
+		trace = append(trace, fmt.Sprintf("idle >= %.6fs, then %d immediate attempts by %d caller(s): %d admitted", t, len(burst), s.callers, got))
+		if want > float64(s.b0) {
+			r.Count("single_field_raise_requiring_more_than_old_burst", 1)
+		}
+		if float64(got) < want {
+			r.Violation("C06/limiter/stricter-than-configured/after-single-field-change="+s.kind,
+				fmt.Sprintf("token bucket reconfigured qps=%d burst=%d -> qps=%d burst=%d (%s) after the old one was drained; after at least %.6fs without any attempt only %d of %d immediate attempts were admitted, min(burst, floor(qps*t)) = %.0f (%d callers)",
+					s.q0, s.b0, s.q1, s.b1, s.kind, t, got, len(burst), want, s.callers),
+				w(map[string]interface{}{"idle_s_at_least": t, "attempts": len(burst), "admitted": got, "required": want}))
+		}
+	})
+}
